@@ -25,6 +25,7 @@ class Broken(Exception):
 # ------------------------------------------------------------------ specification objects
 CHECKS = {}
 GROUPS = {}
+POST = []      # hooks run after all contract files are loaded
 
 class Group:
     """an instantiation unit"""
@@ -35,7 +36,7 @@ class Group:
 class Check:
     def __init__(s, id, props, group, params, wrapper, fn=None, cxx=None, ghosts=(), requires=(), lemmas=(), ensures=(),
                  assigns=None, mode='exact', setup='', tier='quick', fn_re=None, replace=(), loops=None, decl=None,
-                 post='', misuse=False, cbmc_flags=(), timeout=600, note='', unwind=None, ret_cxx=None, native=True, objbits=None, config='debug'):
+                 post='', misuse=False, covers=(), cbmc_flags=(), timeout=600, note='', unwind=None, ret_cxx=None, native=True, objbits=None, config='debug'):
         assert id not in CHECKS, id
         s.id = id; s.props = list(props); s.group = group; s.fn = fn; s.fn_re = fn_re; s.params = list(params)
         s.wrapper = wrapper            # (ret_cxx_type, 'cxx param list', 'cxx body')
@@ -46,7 +47,7 @@ class Check:
         s.assigns = assigns            # None = no assigns clause, else list of targets
         s.mode = mode; s.setup = setup; s.tier = tier; s.replace = list(replace); s.loops = loops or {}
         s.decl = decl or {}; s.post = post; s.misuse = misuse; s.cbmc_flags = list(cbmc_flags); s.timeout = timeout
-        s.note = note; s.unwind = unwind; s.native = native; s.objbits = objbits; s.config = config
+        s.covers = list(covers); s.note = note; s.unwind = unwind; s.native = native; s.objbits = objbits; s.config = config
         CHECKS[id] = s
 
 # ------------------------------------------------------------------ helpers
@@ -240,7 +241,7 @@ def lemma_header():
 class Result:
     def __init__(s, check, mode):
         s.check = check; s.mode = mode; s.status = 'error'; s.obligations = []; s.time = 0.0; s.reason = ''
-        s.canary = None; s.failed = []; s.inputs = None; s.fn = None; s.cfile = None; s.nfuncs = 0; s.cut = []; s.externals = []
+        s.canary = None; s.covers = []; s.failed = []; s.inputs = None; s.fn = None; s.cfile = None; s.nfuncs = 0; s.cut = []; s.externals = []
         s.cmd = ''
 
 def c_escape(sx):
@@ -329,6 +330,8 @@ class Runner:
             if retdecl: h.append('  ' + retdecl)
             h.append('  %s;' % call)
             if check.post: h.append('  ' + b.for_harness(check.post))
+            for cv in check.covers:
+                h.append('  __CPROVER_assert(!(%s), "COVER: %s");' % (b.for_harness(cv), c_escape(cv)))
             h.append('  __CPROVER_assert(0, "CANARY: harness end reachable (expected to fail)");')
             h.append('}')
             for ctype, key in sorted(nd): src.append('%s nondet_%s(void);' % (ctype, key))
@@ -446,6 +449,9 @@ class Runner:
             if desc.startswith('CANARY'):
                 r.canary = (st == 'FAILURE')
                 if st == 'FAILURE' and 'trace' in pr: r.sample_inputs = extract_inputs(pr['trace'])
+                continue
+            if desc.startswith('COVER:'):
+                r.covers.append((desc[7:], st == 'FAILURE'))
                 continue
             if 'Check ensures clause' in desc or '.postcondition' in name:
                 ob['class'] = 'ensures'; ob['label'] = ensline.get(line, '?')
